@@ -8,6 +8,7 @@
 -/
 import Cobweb.Proofs.Tables
 import Cobweb.Proofs.Frames
+import Cobweb.Proofs.Registry
 
 namespace Cobweb.C01
 
@@ -156,6 +157,41 @@ theorem kill_clears_entity (s : St) (e : Nat) : (kill s e).entReactors e = none 
     · simp
     · assumption
   · simp
+
+
+/-! ### history level: a trigger is delivered to the registrations of the last registry operation on its key -/
+
+/-- **Broadcast, along an execution.** Whatever ran since the last `regType` / `revoke` command naming the broadcast key
+    (dispatches, bodies, recursion, despawns, polls — even the despawn of a registered reactor), a broadcast applied now is
+    delivered to exactly the reactors registered then, one delivery per registration, in order. -/
+theorem broadcast_delivers_to_registered {p : Prog} {hh : Hist} (ty pid : Nat) {s s' : St}
+    (h : QuietRun p hh (fun x => ∃ c, nextCmd x = some c ∧ touchesTbl .bc ty c) s s') (hne : s.tbl .bc ty ≠ []) :
+    ∃ d x cs, applyCmd s' (.broadcast ty pid) = s'.fresh.2.push [.flush, .batch (Cmd.spawnData d x :: cs)] ∧
+      targets cs = (s.tbl .bc ty).map (·.sys) := by
+  have e := typewide_stable_run .bc ty h
+  obtain ⟨d, x, cs, h1, h2, _⟩ := broadcast_dispatch s' ty pid (by rw [e]; exact hne)
+  exact ⟨d, x, cs, h1, by rw [h2, e]⟩
+
+/-- ... and with no registration then, nothing runs now. -/
+theorem broadcast_to_nobody {p : Prog} {hh : Hist} (ty pid : Nat) {s s' : St}
+    (h : QuietRun p hh (fun x => ∃ c, nextCmd x = some c ∧ touchesTbl .bc ty c) s s') (hnil : s.tbl .bc ty = []) :
+    applyCmd s' (.broadcast ty pid) = s'.emit (.dropPayload pid) := by
+  have e := typewide_stable_run .bc ty h
+  simp [applyCmd, e, hnil]
+
+/-- **Resource mutation, along an execution.** -/
+theorem resMut_delivers_to_registered {p : Prog} {hh : Hist} (ty : Nat) {s s' : St}
+    (h : QuietRun p hh (fun x => ∃ c, nextCmd x = some c ∧ touchesTbl .res ty c) s s') :
+    ∃ cs, applyCmd s' (.resMut ty) = s'.push [.flush, .batch cs] ∧ targets cs = (s.tbl .res ty).map (·.sys) := by
+  obtain ⟨cs, h1, h2⟩ := resMut_dispatch s' ty
+  exact ⟨cs, h1, by rw [h2, typewide_stable_run .res ty h]⟩
+
+/-- **Entity-scoped listeners, along an execution**: while the entity lives and no command names it, its listeners for
+    any reaction type are exactly those of the start of the stretch. -/
+theorem entity_listeners_stable {p : Prog} {hh : Hist} (e : Nat) (rt : RType) {s s' : St}
+    (h : QuietRun p hh (fun x => (∃ c, nextCmd x = some c ∧ touchesEnt e c) ∨ x.alive e = false) s s') (ha : s'.alive e = true) :
+    entListeners s' e rt = entListeners s e rt := by
+  simp only [entListeners, entity_stable_run e h ha]
 
 /-- Non-vacuity: two reactors on one broadcast key are both dispatched, in table order. -/
 example : ∃ d x cs, applyCmd ({ tbl := fun t ty => if t = .bc ∧ ty = 0 then [⟨7, none⟩, ⟨9, some 0⟩] else [] } : St) (.broadcast 0 5) =
